@@ -18,6 +18,7 @@ type thread struct {
 	blocked func() bool // non-nil: waiting until it returns true
 	what    string
 	started bool
+	vc      vclock // happens-before clock (cfg.Races)
 }
 
 type mchan struct {
@@ -54,6 +55,7 @@ func (i *interpreter) spawn(fr *frame, fn value, args []value, pos token.Pos) {
 	}
 	t := &thread{id: len(i.threads), wake: make(chan struct{}, 1)}
 	i.threads = append(i.threads, t)
+	i.raceFork(i.cur, t)
 	i.writeClock++
 	i.hostWG.Add(1)
 	go func() {
@@ -241,6 +243,7 @@ func (i *interpreter) quiesce() int {
 			n++
 		}
 	}
+	i.raceJoinAll()
 	return n
 }
 
@@ -265,6 +268,7 @@ func (i *interpreter) chanSend(fr *frame, ch, v value, pos token.Pos) {
 		if c.closed {
 			panic(runtimePanic{"send on closed channel at " + fr.pos(pos)})
 		}
+		i.raceRelease(c)
 		c.buf = append(c.buf, v)
 		return
 	}
@@ -273,6 +277,7 @@ func (i *interpreter) chanSend(fr *frame, ch, v value, pos token.Pos) {
 	if c.closed {
 		panic(runtimePanic{"send on closed channel at " + fr.pos(pos)})
 	}
+	i.raceRelease(c)
 	c.buf = append(c.buf, v)
 	want := c.taken + 1
 	i.block(func() bool { return c.taken >= want || c.closed }, fmt.Sprintf("send chan#%d (no receiver)", c.id))
@@ -306,6 +311,7 @@ func (i *interpreter) chanRecv(fr *frame, instr *ssa.UnOp, ch value) value {
 	i.block(c.recvReady, fmt.Sprintf("recv chan#%d", c.id))
 	c.recvWaiting--
 	v, ok := c.take()
+	i.raceAcquire(c)
 	if !ok {
 		v = zero(instr.X.Type().Underlying().(*types.Chan).Elem())
 	}
@@ -324,6 +330,7 @@ func (i *interpreter) chanClose(fr *frame, ch value, pos token.Pos) {
 	if c.closed {
 		panic(runtimePanic{"close of closed channel at " + fr.pos(pos)})
 	}
+	i.raceRelease(c)
 	c.closed = true
 }
 
@@ -395,6 +402,7 @@ func (i *interpreter) selectOp(fr *frame, instr *ssa.Select) value {
 			if c.c.closed {
 				panic(runtimePanic{"send on closed channel at " + fr.pos(instr.Pos())})
 			}
+			i.raceRelease(c.c)
 			c.c.buf = append(c.c.buf, c.v)
 			if c.c.cap == 0 {
 				want := c.c.taken + 1
@@ -403,6 +411,7 @@ func (i *interpreter) selectOp(fr *frame, instr *ssa.Select) value {
 			}
 		} else {
 			recv, recvOk = c.c.take()
+			i.raceAcquire(c.c)
 		}
 	}
 	r := tuple{chosen, recvOk}
@@ -440,6 +449,7 @@ func (i *interpreter) lock(fr *frame, p *value) {
 	i.block(func() bool { return !m.locked && m.readers == 0 }, "mutex.Lock")
 	m.locked = true
 	m.owner = i.cur.id
+	i.raceAcquire(m)
 }
 
 func (i *interpreter) unlock(fr *frame, p *value) {
@@ -447,6 +457,7 @@ func (i *interpreter) unlock(fr *frame, p *value) {
 	if !m.locked {
 		panic(runtimePanic{"sync: unlock of unlocked mutex at " + fr.pos(token.NoPos)})
 	}
+	i.raceRelease(m)
 	m.locked = false
 	if i.pm.cfg.YieldUnlock {
 		// the window after a critical section (lookup -> open, reserve -> write)
@@ -459,6 +470,7 @@ func (i *interpreter) rlock(fr *frame, p *value) {
 	i.yieldPoint("rlock")
 	i.block(func() bool { return !m.locked }, "rwmutex.RLock")
 	m.readers++
+	i.raceAcquire(m)
 }
 
 func (i *interpreter) runlock(fr *frame, p *value) {
@@ -466,6 +478,7 @@ func (i *interpreter) runlock(fr *frame, p *value) {
 	if m.readers <= 0 {
 		panic(runtimePanic{"sync: RUnlock of unlocked RWMutex"})
 	}
+	i.raceRelease(m)
 	m.readers--
 	i.yieldPoint("runlock")
 }
